@@ -191,8 +191,15 @@ fn session(sc: &ScenarioB, opts_keep: usize) -> (Vec<Found>, Vec<StepRecord>, St
         let tc = time_control_of(&step.go);
         let before = game_image(&game);
         let legal = oracle::legal_move_strs(&game);
+        let white = game.player == crate::chess::player::Player::White;
+        let limit_ms = if step.go.wtime.is_some() || step.go.btime.is_some() {
+            Some((if white { step.go.wtime } else { step.go.btime }.unwrap_or(0), true))
+        } else {
+            step.go.movetime.map(|m| (m, false))
+        };
         let search_id = seam::with_sim(|s| {
             s.next_stop_at_poll = step.stop_at_poll;
+            s.next_caller_limit_ns = limit_ms.map(|(ms, c)| (ms.saturating_mul(1_000_000), c));
             let id = s.searches.len();
             for e in &step.clock_events {
                 s.clock_events.push(ClockEvent {
@@ -219,6 +226,10 @@ fn session(sc: &ScenarioB, opts_keep: usize) -> (Vec<Found>, Vec<StepRecord>, St
         let restrictions = SearchRestrictions { depth: step.go.depth };
         let best = search::search(&game, &mut state, &mut ts, &restrictions, &options, &mut reporter);
         let best_s = oracle::move_str(best);
+        let limit_ignored = seam::with_sim(|s| s.liveness_violation.take()).flatten();
+        if let Some(v) = limit_ignored {
+            add_found(&mut found, "limit-ignored", format!("search #{i} (`{}` in {}): {v}", step.go.line(), game.to_fen()), "limit-ignored".into());
+        }
         let (rec, now, cap_hit) = seam::with_sim(|s| {
             let now = s.now_ns;
             let r = &mut s.searches[search_id];
